@@ -84,7 +84,7 @@ func nilResults(c *cat.Catalog, want *Entry) *Entry {
 			return false
 		}
 		if f.Rs[p.I-1].M == "flat" {
-			return p.E == 1 // the first member of a flattened slice
+			return p.E <= 2 // the first two members of a flattened slice (two equal members)
 		}
 		return p.E == 0 && !(f.Kind == "dec" && f.Rs[p.I-1].M == "grp")
 	}
@@ -211,9 +211,17 @@ func CompareEntry(c *cat.Catalog, dry bool, idx int, want, got *Entry) []Diverge
 				add("info.entries", fmt.Sprintf("%s: InvokeInfo want in=%q got in=%q", ctx, in, got.Info.Inputs), false)
 			}
 		}
-	} else if want.Op == "invoke" && got.Info != nil && wv == "ok" && gv == "ok" {
-		if fn := c.Fns[want.F]; fn != nil && len(fn.Ps) > 0 {
-			add("info.missing", ctx+": InvokeInfo not filled by a successful Invoke", false)
+	} else if want.Op == "invoke" && got.Info != nil {
+		// the arguments were built (the function was called, or would have been): the Info struct
+		// lists the dependencies whatever the function then does
+		ran := wv == "ok" && gv == "ok"
+		for _, ev := range got.Log {
+			if ev.T == "exec" && ev.F == want.F {
+				ran = true
+			}
+		}
+		if fn := c.Fns[want.F]; ran && fn != nil && fn.Inv == "" && len(fn.Ps) > 0 {
+			add("info.missing", ctx+": InvokeInfo not filled although the arguments of the function were built", false)
 		}
 	}
 	// executions
